@@ -166,7 +166,6 @@ int32 Vaddtagref(int32 vkey, int32 tag, int32 ref)
    at p matches (E4) -- i.e. p is the first match.  No match (or bad handle) => FAIL, nothing
    changed. */
 #define DT_M(k) (g_vg->tag[k] == (uint16)tag && g_vg->ref[k] == (uint16)ref)
-#define DT_OK (__CPROVER_return_value == SUCCEED)
 #define DT_K(x, t, r) (g_vg->tag[x] == (t) && g_vg->ref[x] == (r))
 int Vdeletetagref(int32 vkey, int32 tag, int32 ref)
     __CPROVER_requires(VG_WF(g_vg) && g_vg->msize >= 2)
@@ -176,17 +175,17 @@ int Vdeletetagref(int32 vkey, int32 tag, int32 ref)
     __CPROVER_ensures(__CPROVER_return_value == SUCCEED || __CPROVER_return_value == FAIL)
     __CPROVER_ensures(!VKEY_OK(vkey) ==> __CPROVER_return_value == FAIL)
     /* E1 */
-    __CPROVER_ensures(DT_OK ==> ((int)g_vg->nvelt == (int)__CPROVER_old(g_vg->nvelt) - 1 && g_vg->marked == TRUE))
+    __CPROVER_ensures(__CPROVER_return_value == SUCCEED ==> ((int)g_vg->nvelt == (int)__CPROVER_old(g_vg->nvelt) - 1 && g_vg->marked == TRUE))
     /* E2: member k of the new list is old member k or old member k+1 */
-    __CPROVER_ensures((DT_OK && g_k < g_vg->nvelt) ==> (DT_K(g_k, g_kt, g_kr) || DT_K(g_k, g_k1t, g_k1r)))
+    __CPROVER_ensures((__CPROVER_return_value == SUCCEED && g_k < g_vg->nvelt) ==> (DT_K(g_k, g_kt, g_kr) || DT_K(g_k, g_k1t, g_k1r)))
     /* E3: a position that matched is at or after the removed one: it now holds its successor */
-    __CPROVER_ensures((DT_OK && g_k < g_vg->nvelt && g_kt == (uint16)tag && g_kr == (uint16)ref) ==> DT_K(g_k, g_k1t, g_k1r))
+    __CPROVER_ensures((__CPROVER_return_value == SUCCEED && g_k < g_vg->nvelt && g_kt == (uint16)tag && g_kr == (uint16)ref) ==> DT_K(g_k, g_k1t, g_k1r))
     /* E4: the removed member matched.  Position g_k is the removed one if its predecessor is not
        shifted (or g_k == 0) and it is itself not kept (or was the last member) */
-    __CPROVER_ensures((DT_OK && g_k <= g_vg->nvelt && (g_k == 0 || !DT_K(g_k - 1, g_kt, g_kr)) &&
+    __CPROVER_ensures((__CPROVER_return_value == SUCCEED && g_k <= g_vg->nvelt && (g_k == 0 || !DT_K(g_k - 1, g_kt, g_kr)) &&
                        (g_k == g_vg->nvelt || !DT_K(g_k, g_kt, g_kr))) ==> (g_kt == (uint16)tag && g_kr == (uint16)ref))
     /* E5: order preserved: once a position is not kept, every later one is shifted */
-    __CPROVER_ensures((DT_OK && g_j < g_vg->nvelt && !DT_K(g_k, g_kt, g_kr)) ==> DT_K(g_j, g_j1t, g_j1r))
+    __CPROVER_ensures((__CPROVER_return_value == SUCCEED && g_j < g_vg->nvelt && !DT_K(g_k, g_kt, g_kr)) ==> DT_K(g_j, g_j1t, g_j1r))
     /* FAIL: nothing changed; and with a valid handle no member matches */
     __CPROVER_ensures(__CPROVER_return_value == FAIL ==>
                       (g_vg->nvelt == __CPROVER_old(g_vg->nvelt) && g_vg->marked == __CPROVER_old(g_vg->marked) &&
@@ -511,12 +510,13 @@ h_Vgettagrefs(void)
 }
 
 /* the argument string: g_len characters, none of them NUL, then the terminator */
-#define NAME_CAP 8
+#define NAME_CAP 6 /* < cex_unwind */
 #define MK_NAME(s)                                                                                                \
     H4V_HAVOC(size_t, g_len);                                                                                     \
     H4V_HAVOC(size_t, g_c);                                                                                       \
     H4V_ASSUME(g_len <= 0x7ffffffe);                                                                              \
-    H4V_ND_BUF(char, s, g_len + 1, NAME_CAP);                                                                     \
+    H4V_ND_BUF(uint8, s##_b, g_len + 1, NAME_CAP);                                                                \
+    char *s = (char *)s##_b;                                                                                      \
     H4V_ASSUME(s[g_len] == '\0');                                                                                 \
     H4V_ASSUME(g_c <= g_len && (g_c == g_len || s[g_c] != '\0'));                                                 \
     NAME_NO_NUL(s);                                                                                               \
@@ -694,4 +694,75 @@ h_vg_roundtrip(void)
         }
     }
     H4V_CANARY("vg_roundtrip end");
+}
+
+/* ------------------------------------------------------------------ bounded reference-model checks
+   The pointwise (ghost index) contracts above cannot say "TRUE => SOME member matches" or give
+   the exact count / the exact first match.  For groups of <= MM_N members the result is compared
+   with a reference model computed by the harness (stand-ins, mode bounded). */
+#define MM_N 4
+#define MM_SETUP()                                                                                                \
+    HAVOC_GHOSTS();                                                                                               \
+    MK_VG(vg);                                                                                                    \
+    H4V_ASSUME(vg->msize <= MM_N + 1 && vg->nvelt <= MM_N);                                                       \
+    MK_KEY(vkey, vg);                                                                                             \
+    H4V_ND(int32, tag);                                                                                           \
+    H4V_ND(int32, ref)
+
+void
+h_Vinqtagref_model(void)
+{
+    MM_SETUP();
+    int exp = FALSE;
+    for (unsigned k = 0; k < MM_N; k++)
+        if (VKEY_OK(vkey) && k < vg->nvelt && vg->tag[k] == (uint16)tag && vg->ref[k] == (uint16)ref)
+            exp = TRUE;
+    int r = Vinqtagref(vkey, tag, ref);
+    H4V_CHECK(r == exp, "Vinqtagref == (some member equals (tag,ref))");
+    H4V_COVER(r == TRUE && vg->nvelt == MM_N, "Vinqtagref model found");
+    H4V_CANARY("Vinqtagref_model end");
+}
+
+void
+h_Vnrefs_model(void)
+{
+    MM_SETUP();
+    int32 exp = VKEY_OK(vkey) ? 0 : FAIL;
+    for (unsigned k = 0; k < MM_N; k++)
+        if (VKEY_OK(vkey) && k < vg->nvelt && vg->tag[k] == (uint16)tag)
+            exp++;
+    int32 r = Vnrefs(vkey, tag);
+    H4V_CHECK(r == exp, "Vnrefs == number of members with the tag");
+    H4V_COVER(r == 2, "Vnrefs model two");
+    H4V_CANARY("Vnrefs_model end");
+}
+
+void
+h_Vdeletetagref_model(void)
+{
+    MM_SETUP();
+    uint16   ot[MM_N + 1], orf[MM_N + 1];
+    unsigned n = vg->nvelt, f = MM_N + 1;
+    int      m0 = vg->marked;
+    for (unsigned k = 0; k < MM_N + 1; k++) {
+        ot[k]  = k < (unsigned)vg->msize ? vg->tag[k] : 0;
+        orf[k] = k < (unsigned)vg->msize ? vg->ref[k] : 0;
+        if (f > MM_N && k < n && ot[k] == (uint16)tag && orf[k] == (uint16)ref)
+            f = k; /* first match */
+    }
+    int r = Vdeletetagref(vkey, tag, ref);
+    if (!VKEY_OK(vkey) || f > MM_N) {
+        H4V_CHECK(r == FAIL && vg->nvelt == n && vg->marked == m0, "Vdeletetagref: no match or bad handle => FAIL, count kept");
+        for (unsigned k = 0; k < MM_N; k++)
+            H4V_CHECK(k >= n || (vg->tag[k] == ot[k] && vg->ref[k] == orf[k]), "Vdeletetagref: FAIL changes no member");
+    }
+    else {
+        H4V_CHECK(r == SUCCEED && vg->nvelt == n - 1 && vg->marked == TRUE, "Vdeletetagref: match => SUCCEED, one member fewer");
+        for (unsigned k = 0; k + 1 < MM_N; k++)
+            H4V_CHECK(k + 1 >= n || (vg->tag[k] == ot[k < f ? k : k + 1] && vg->ref[k] == orf[k < f ? k : k + 1]),
+                      "Vdeletetagref: list == old list without its FIRST match");
+    }
+    H4V_COVER(r == SUCCEED && n == MM_N && f == 1, "Vdeletetagref model middle");
+    H4V_COVER(r == SUCCEED && f == n - 1, "Vdeletetagref model last");
+    H4V_CANARY("Vdeletetagref_model end");
 }
